@@ -2,11 +2,11 @@ package props
 
 import (
 	"fmt"
-	"strings"
 	"go/ast"
 	"go/constant"
 	"go/token"
 	"go/types"
+	"strings"
 
 	"golang.org/x/tools/go/ssa"
 
